@@ -45,6 +45,14 @@ FINDINGS = {
             "what": "a structure declared before its member type is extended keeps the member's earlier size: stale size "
                     "and offsets, the interpreted reader seeks to the stale offset (struct I { uint8 a; }; struct O "
                     "{ uint8 x; I i; uint8 z; }; I.add_field('b', uint32): len(O) stays 3, O(dumps(v)).z is a byte of i.b)"},
+    "K15": {"props": ["C11"],
+            "what": "an assignment through a structure that is an element of an array member of a union does not reach the "
+                    "union (union A { S s[2]; uint16 w[3]; }: a.s[0].x = 0xAAAA leaves a.w and the other views as they "
+                    "were while dumps() writes the new bytes; only structures that are members themselves are proxied)"},
+    "K14": {"props": ["C17"],
+            "what": "a structure whose enum or flag field holds a plain integer equals the one holding the member (and "
+                    "the parse of its own dump) but hashes differently: members compare equal to their integer value yet "
+                    "hash together with their class (struct K { E e; }: K(e=1) == K(e=E.Q), hash differs)"},
     "K9": {"props": ["C04"],
            "what": "aligned structure used at an unaligned offset of a packed structure: its tail padding is computed "
                    "from the absolute stream position, so bytes consumed / dumped differ from len() and array elements "
